@@ -9,6 +9,7 @@ none for removed or never-written keys, each identical to what `find` returns.  
 one bucket (same SHA-1) are handled, not excluded.
 -/
 import Cacache.Lemmas.ListRefine
+import Cacache.Lemmas.SpecLaws
 
 namespace Cacache.C10x
 open Prog CacheRefine ListRefine Refine
@@ -51,5 +52,19 @@ theorem listing_from_empty_cache (ops : List (Env × XOp)) (fs : FS)
     else (run env' (ls cfg cache) (xRunOps cfg cache ops fs).2).1 = [.err (.io .notFound)]) ∧
     (∀ k, k ∉ writtenKeys ops → (xSpecRun cfg ops (absX cfg cache fs)).2.cache.index k = none) :=
   ls_from_empty cfg cache ops fs hanc hbelow hl hops env'
+
+/-- **A listing never changes what the cache holds** — for whole histories: delete every listing
+(and every keyed read, lookup, by-address read, `exists`) from any history of writes, removals, full
+removals and `clear`, and the final abstract state — entries, contents, bucket files, directories —
+is the same (`Lemmas/SpecLaws.lean`).  Listing is an observation, cold or warm, wherever placed. -/
+theorem listing_does_not_mutate_any_history (ops : List (Env × XOp)) (fs : FS) (h : XHealthy cfg cache fs)
+    (hl : HexLen cfg) (hops : ∀ x ∈ ops, x.2.WF cfg) :
+    absX cfg cache (xRunOps cfg cache (ops.filter (fun x => !SpecLaws.isReadX x.2)) fs).2 =
+      absX cfg cache (xRunOps cfg cache ops fs).2 :=
+  SpecLaws.listings_invisible cfg cache ops fs h hl hops
+
+/-- What is deleted, on a concrete history (a test of the definition): the listing goes, `clear` stays. -/
+example (env : Env) :
+    [(env, XOp.list), (env, XOp.clear)].filter (fun x => !SpecLaws.isReadX x.2) = [(env, XOp.clear)] := rfl
 
 end Cacache.C10x
